@@ -507,6 +507,11 @@ func GenCase(p *Profile) *rapid.Generator[Case] {
 				c.Ops = append(c.Ops, Op{K: OpEvict, C: uni(t, nc, "evictcoll"), N: rapid.IntRange(2, 12).Draw(t, "evictn"), Flag: 1})
 			}
 		}
+		if giantDrawn && len(c.Ops) > 40 {
+			// a value of a megabyte makes every probe re-open copy megabytes: keep such
+			// histories short (long ones tripped the watchdog on a busy machine)
+			c.Ops = c.Ops[:40]
+		}
 		return c
 	})
 }
